@@ -226,6 +226,7 @@ class Extras(TypedDict):
     cls_name: str
     fn_gen: FunctionBuilder
     locals: dict[str, Any]
+    optionals_in_progress: PyNotRequired[list[tuple]]
     pattern: PyNotRequired['PatternBase']
     recursion_guard: dict[type, str]
 
